@@ -22,12 +22,18 @@ only A, B, D, E and |n|<=area are demanded), and rigid embeddings of 1-D / 2-D g
 Detection power (scratch copy of /repo/src, POREPY_SRC, one mutant at a time; all gave exit 1 + VIOLATION):
   * grid.py _compute_geometry_2d: sub_centroids weight ``(c + 2 f)/3`` -> ``(2 c + f)/3``    -> caught by G
     (only on perturbed / non-parallelogram quadrilaterals, as expected)
-  * grid.py _compute_geometry_3d: ``tri_centroids = 3/4 * dist`` -> ``2/3 * dist``            -> caught by G
+  * grid.py _compute_geometry_3d: ``tri_centroids = 3/4 * dist`` -> ``2/3 * dist``            -> caught by G (only on the
+    column-perturbed prisms over general quadrilaterals: for tetrahedra and parallelepipeds the mutant is equivalent)
   * grid.py _compute_geometry_1d: flip condition ``sgn > 0`` <-> ``sgn < 0`` swapped          -> caught by D, E, F
-  * structured.py _create_3d_grid: z-face node order (fn1,fn2,fn3,fn4) -> (fn1,fn4,fn3,fn2)    -> caught by D, E, F
+  * structured.py _create_3d_grid: z-face node order (fn1,fn2,fn3,fn4) -> (fn1,fn4,fn3,fn2)    -> caught (compute_geometry
+    raises "negative volume" -> "compute_geometry: returns on an admissible grid")
   * grid.py _compute_geometry_2d fallback: ``flip = ... < 0`` -> ``> 0``                       -> caught by D, F
   * simplex.py TetrahedralGrid: sign rule ``data[sgn_change] = -1`` -> ``+1`` is rejected by the Grid
-    constructor itself (ValueError) -> reported as a violation "compute_geometry: returns" (crash on admissible input)
+    constructor itself (ValueError) -> reported as violation "grid constructor: builds a consistently oriented grid"
+  * grid.py _compute_geometry_3d: ``face_areas = edge_2_face.T * sub_areas`` -> ``* 0.5``       -> caught (compute_geometry raises
+    "negative volume" on every 3-D grid -> "compute_geometry: returns on an admissible grid")
+  * simplex.py TriangleGrid: ``cf_data = sign(n1 - n0)`` -> ``sign(n0 - n1)`` NOT caught: equivalent mutant for this property
+    (all cell-face signs flip, the 2-D kernel re-orients the normals accordingly, every identity still holds)
 """
 from __future__ import annotations
 
@@ -98,8 +104,10 @@ def topo(g):
     return CF, fnodes
 
 
-def cells_valid(dim, nodes, CF, fnodes, eps):
-    """requires: every cell is a non-degenerate convex cell (natural coordinates: 1-D on x, 2-D in xy)."""
+def cells_valid(dim, nodes, CF, fnodes, eps, ref):
+    """requires: every cell is a non-degenerate convex cell with the same orientation as in the reference
+    configuration ``ref`` (the grid as constructed), so that the cells still tile the domain
+    (natural coordinates: 1-D on x, 2-D in xy)."""
     nc = CF.shape[1]
     if dim == 1:
         for c in range(nc):
@@ -107,7 +115,8 @@ def cells_valid(dim, nodes, CF, fnodes, eps):
             if len(fs) != 2:
                 return False
             xs = [nodes[0, fnodes[f][0]] for f in fs]
-            if abs(xs[1] - xs[0]) < eps:
+            xr = [ref[0, fnodes[f][0]] for f in fs]
+            if (xs[1] - xs[0]) * np.sign(xr[1] - xr[0]) < eps:
                 return False
         # no overlap: cell intervals must be disjoint
         iv = sorted(sorted(nodes[0, fnodes[f][0]] for f in np.nonzero(CF[:, c])[0]) for c in range(nc))
@@ -117,7 +126,7 @@ def cells_valid(dim, nodes, CF, fnodes, eps):
             fs = np.nonzero(CF[:, c])[0]
             edges = {frozenset(int(v) for v in fnodes[f]) for f in fs}
             vs = sorted({v for e in edges for v in e})
-            P = nodes[:2, vs]
+            P = ref[:2, vs]
             ctr = P.mean(axis=1, keepdims=True)
             ang = np.arctan2(P[1] - ctr[1], P[0] - ctr[0])
             o = np.argsort(ang)
@@ -355,7 +364,12 @@ def _cases(pp, rng, quick):
     """yield dict(case) with keys: key, family, args, dim, nodes (natural, 3xN), measure, planar, op, emb"""
     nper = 2 if quick else 12
     for family, args, dim, measure, kind in _base_grids(pp, rng, quick):
-        g0 = build(pp, family, args)
+        try:
+            g0 = build(pp, family, args)
+        except Exception as e:  # the constructor rejected its own topology: a violated postcondition, not a checker crash
+            yield {"family": family, "args": args, "dim": dim, "nodes": np.zeros((3, 0)), "measure": measure, "planar": True,
+                   "op": "plain", "emb": "id", "R": np.eye(3), "t": np.zeros(3), "kind": kind, "error": f"{type(e).__name__}: {e}"}
+            continue
         base = np.array(g0.nodes, dtype=float)
         lo, hi = base.min(axis=1), base.max(axis=1)
         h = None
@@ -417,13 +431,19 @@ def _cases(pp, rng, quick):
 def run_case(pp, case, record_branch=False):
     """Build, validate (requires), run the real compute_geometry, evaluate the contract.
     Returns (status, data): status 'skip' | 'ok' ; data = list of violated (obligation, detail)."""
-    g = build(pp, case["family"], case["args"])
+    try:
+        g = build(pp, case["family"], case["args"])
+    except Exception as e:
+        return "ok", ([("grid constructor: builds a consistently oriented grid", f"{type(e).__name__}: {e}")], False)
     dim = case["dim"]
     nat = np.array(case["nodes"], dtype=float)
     CF, fnodes = topo(g)
     h = float(np.max(np.ptp(nat, axis=1))) or 1.0
     if dim < 3:
-        if not cells_valid(dim, nat, CF, fnodes, 1e-6 * h * (h if dim == 2 else 1)):
+        ref = np.array(g.nodes, dtype=float)
+        if case["op"].startswith("affine"):
+            ref = nat  # an affine map with positive determinant keeps validity; orientation is taken from the image itself
+        if not cells_valid(dim, nat, CF, fnodes, 1e-6 * h * (h if dim == 2 else 1), ref):
             return "skip", None
     elif case["kind"] == "simplex":
         cn = np.array([sorted({int(v) for f in np.nonzero(CF[:, c])[0] for v in fnodes[f]}) for c in range(CF.shape[1])]).T
